@@ -65,9 +65,14 @@ class PaneBase:
     ):
         old_params = getattr(cls, '__parameters__', ())
         super().__init_subclass__(*args, **kwargs)
-        # parameters forwarded by a base (G[int, V]) may be declared again (Generic[V]): keep each once,
-        # the declared ones first and in their declared order (Generic[W, V] is subscripted as [W, V])
-        setattr(cls, '__parameters__', tuple(dict.fromkeys(getattr(cls, '__parameters__', ()) + old_params)))
+        # parameters forwarded by a base (G[int, V]) may be declared again (Generic[V]): keep each once.
+        # A class which lists all of them (Generic[W, V]) is subscripted in its declared order, [W, V];
+        # otherwise the forwarded parameters come first, followed by the newly declared ones
+        new_params = getattr(cls, '__parameters__', ())
+        if set(old_params) <= set(new_params):
+            setattr(cls, '__parameters__', tuple(dict.fromkeys(new_params)))
+        else:
+            setattr(cls, '__parameters__', tuple(dict.fromkeys(old_params + new_params)))
 
         if rename is not None:
             if in_rename is not None or out_rename is not None:
